@@ -183,7 +183,7 @@ static void end_op(const char *name, const char *result) {
     logbuf = NULL;
   }
   /* the oracle applies to one operation */
-  W.crash_at = W.fail_at = W.short_at = -1;
+  W.crash_at = W.fail_at = W.short_at = W.shrink_at = -1;
   W.short_all = 0;
   if (!ok(T)) {
     /* main() would report and stop; the driver clears the trace to go on */
@@ -275,8 +275,12 @@ int drv_world(void) {
     } else if (!strcmp(op, "oracle")) {
       W.crash_at = W.fail_at = W.short_at = -1;
       W.short_all = 0;
+      W.shrink_at = -1;
       if (!strcmp(t[1], "shortall")) {
         W.short_all = strtoul(t[2], NULL, 10);
+      } else if (!strcmp(t[1], "shrink")) {
+        W.shrink_at = atol(t[2]);
+        W.shrink_n = strtoul(t[3], NULL, 10);
       } else if (!strcmp(t[1], "crash")) {
         W.crash_at = atol(t[2]);
       } else if (!strcmp(t[1], "fail")) {
